@@ -57,11 +57,26 @@ def fields_of(v):
         zone = NAIVE
     else:
         off = tz.utcoffset(v if isinstance(v, datetime.datetime) else None)
-        zone = int(off.total_seconds() // 60)
+        zone = NAIVE if off is None else int(off.total_seconds() // 60)
     kind = "datetime" if isinstance(v, datetime.datetime) else ("date" if isinstance(v, datetime.date) else "time")
     return {"kind": kind, "y": getattr(v, "year", 0), "m": getattr(v, "month", 0), "dd": getattr(v, "day", 0),
             "H": getattr(v, "hour", 0), "M": getattr(v, "minute", 0), "S": getattr(v, "second", 0),
             "us": getattr(v, "microsecond", 0), "zone": zone}
+
+
+class SeasonalZone(datetime.tzinfo):
+    """a zone whose offset depends on the date (like any real-world zone with daylight saving time)"""
+
+    def utcoffset(self, dt):
+        if dt is None:
+            return None
+        return datetime.timedelta(hours=-4 if 4 <= dt.month <= 10 else -5)
+
+    def dst(self, dt):
+        return None if dt is None else datetime.timedelta(hours=1 if 4 <= dt.month <= 10 else 0)
+
+    def tzname(self, dt):
+        return "Seasonal"
 
 
 def py_values(thorough):
@@ -82,6 +97,9 @@ def py_values(thorough):
         for dt in dates[::4]:
             for t in times[::5]:
                 vals.append(datetime.datetime(dt.year, dt.month, dt.day, *t, tzinfo=tz))
+    for (y, mo, d) in ((2020, 7, 1), (2020, 1, 15), (1999, 12, 31)):
+        for t in ((12, 0, 0, 0), (23, 30, 15, 250000)):
+            vals.append(datetime.datetime(y, mo, d, *t, tzinfo=SeasonalZone()))
     return vals
 
 
